@@ -723,11 +723,15 @@ where
                             member.incarnation() == incarnation
                         })
                     {
+                        // The update may not have been applied: the suspicion
+                        // could have been refuted or the member replaced by a
+                        // newer identity in the meantime
+                        let declared_down = summary.apply_successful;
                         self.handle_apply_summary(summary, as_down, true, &mut runtime)?;
                         // Member went down we might need to adjust our internal state
                         self.adjust_connection_state(&mut runtime);
 
-                        if self.config.notify_down_members {
+                        if declared_down && self.config.notify_down_members {
                             // As a courtesy, we send a lightweight message to the member
                             // we're declaring down so that if it manages to receive it,
                             // it can react accordingly
